@@ -69,6 +69,11 @@ def run(ctx):
     ctx.evaluations = len(traces)
     ctx.extra["scenarios_skipped"] = len(skipped)
     ctx.judge(sd, "RendezvousTrace", "Judge_Rendezvous.cfg", merged, scenario_of=by_id)
+    # The Python client (sdk/python/arvados/keep.py weighted_service_roots) on the same concrete configurations
+    if not ctx.replay_scn:
+        import C12_python
+        ctx.extra["python_client_executions"] = C12_python.run_part(ctx, traces)
+        ctx.evaluations += ctx.extra["python_client_executions"]
     # Composition (growth beyond the three call sites): real PutB then real Get against fake stores that
     # accept/refuse writes and are up/down at read time -- "a block written with enough replicas is found at
     # the first positions a reader tries" (KeepE2E.tla; lemmas L1 fault tolerance, L2 first position)
